@@ -400,7 +400,12 @@ pub mod details {
                     Ordering::Acquire,
                 ) {
                     Ok(_) => break,
-                    Err(v) => read_position = v,
+                    Err(v) => {
+                        read_position = v;
+                        if read_position == self.write_position.load(Ordering::Acquire) {
+                            return None;
+                        }
+                    }
                 }
             }
 
